@@ -201,7 +201,16 @@ def run_unit(name, extra_args=(), variant=None, mutate_text=None, rlimit=None, s
         reg = region_at(regions, ps["byte_start"])
         label = None
         # label: secondary span (failed pre/postcondition clause), else the primary span's own line
-        for s in sec + prim:
+        def rank(sp):
+            lab = (sp.get("label") or "")
+            if "failed" in lab:
+                return 0
+            if "at this exit" in lab or "at the end of the function body" in lab or "at this call" in lab:
+                return 3
+            return 1 if sp.get("is_primary") else 2
+        for s in sorted(spans, key=rank):
+            if rank(s) == 3:
+                continue
             label = label_at(text, s["byte_start"], s["byte_end"])
             if label:
                 break
